@@ -74,6 +74,28 @@ def enumerate_cases(tier):
                 yield dict(b, init={"t": "2d", "v": [flat[r * b["cols"] : (r + 1) * b["cols"]] for r in range(nreal // b["cols"])]})
             if b["ctor"] != "Trough":  # Trough documents int / float / sequence; a numpy float32 scalar is neither
                 yield dict(b, init={"t": "scalar", "v": v32})
+    for b in (_base("Labware", 2, 3), _base("Trough", 1, 2, 4), _base("LabwareV", 1, 2, 3)):
+        nreal = (b["rows"] if b["ctor"] == "Labware" else 1) * b["cols"]
+        # an unlimited max_volume does not make an infinite filling volume finite
+        for bad in ({"special": "inf"}, {"special": "nan"}, {"special": "-inf"}):
+            yield dict(b, max={"special": "inf"}, init={"t": "scalar", "v": bad}, aspects={"init": "invalid"})
+            yield dict(b, max={"special": "inf"}, init={"t": "percol" if b["ctor"] == "Trough" else "flat", "v": [50.0] * (nreal - 1) + [bad]}, aspects={"init": "invalid"})
+        yield dict(b, max={"special": "inf"}, init={"t": "scalar", "v": 1e300})
+        # names although nothing was filled in: initial volumes left out, None in effect, or zero
+        for init in ({"t": "none"}, {"t": "scalar", "v": 0.0}):
+            if b["ctor"] == "Trough":
+                yield dict(b, init=init, names={"t": "cols", "v": ["water"] + [None] * (b["cols"] - 1)}, aspects={"names": "invalid"})
+                yield dict(b, init=init, names={"t": "cols", "v": [None] * b["cols"]})
+            else:
+                yield dict(b, init=init, names={"t": "dict", "v": {"A01": "water"}}, aspects={"names": "invalid"})
+                yield dict(b, init=init, names={"t": "dict", "v": {"Q77": "water"}}, aspects={"names": "invalid"})
+                yield dict(b, init=init, names={"t": "dict", "v": {"A01": None}})
+        # names that differ only in upper/lower case are different names, whatever order the wells come in
+        variants = ["water", "Water", "water", "WATER", "Water", "water"]
+        if b["ctor"] == "Trough":
+            yield dict(_base("Trough", 1, 6, 2), init={"t": "percol", "v": [10.0 * (i + 1) for i in range(6)]}, names={"t": "cols", "v": variants})
+        else:
+            yield dict(b, init={"t": "flat", "v": [10.0 * (i + 1) for i in range(nreal)]}, names={"t": "dict", "v": {wid(i // b["cols"], i % b["cols"]): variants[i % 6] for i in range(nreal)}})
     for b in bases:
         yield dict(b)
         size_keys = ["cols"] + (["rows"] if b["ctor"] == "Labware" else ["vrows"])
